@@ -2,19 +2,21 @@
 import json
 import vlib
 
-THEOREMS = "BadOptionsChangeNothing HardIsClean HardKeepsUntracked SwitchLosesNothing SwitchKeepsStaged AddAllMatches StatusCleanIff WellFormed DirtyWriteRefuses Emit"
+THEOREMS = "SparseKeepLosesNothing BadOptionsChangeNothing HardIsClean HardKeepsUntracked SwitchLosesNothing SwitchKeepsStaged AddAllMatches StatusCleanIff WellFormed DirtyWriteRefuses Emit"
 UNIVERSES = {
     # name: (Paths, Under, Entries, KindOf, CleanOnly, Ops, Cone, SparseSets)
-    "one-path-all-kinds": ("P1", "NoUnder", "E4", "K4", "FALSE", "OpsNoMove", "NoCone", "{}"),
-    "dir-file-conflict": ("PDF", "UDF", "E2", "K2", "FALSE", "OpsMain", "NoCone", "{}"),
-    "two-paths": ("P2", "NoUnder", "E2", "K2", "FALSE", "OpsMain", "NoCone", "{}"),
+    "one-path-all-kinds": ("P1", "NoUnder", "E4", "K4", "any", "OpsNoMove", "NoCone", "{}"),
+    "dir-file-conflict": ("PDF", "UDF", "E2", "K2", "any", "OpsMain", "NoCone", "{}"),
+    "two-paths": ("P2", "NoUnder", "E2", "K2", "any", "OpsMain", "NoCone", "{}"),
     # the same universes with the refusal / reset-to-HEAD / pull operations added (C29, C30)
-    "one-path-all-kinds+r": ("P1", "NoUnder", "E4", "K4", "FALSE", "OpsNoMoveR", "NoCone", "{}"),
-    "dir-file-conflict+r": ("PDF", "UDF", "E2", "K2", "FALSE", "OpsMainR", "NoCone", "{}"),
-    "two-paths+r": ("P2", "NoUnder", "E2", "K2", "FALSE", "OpsMainR", "NoCone", "{}"),
-    "sparse": ("PS", "NoUnder", "E1", "K1", "TRUE", "OpsSparse", "ConeS", "SS"),
+    "one-path-all-kinds+r": ("P1", "NoUnder", "E4", "K4", "any", "OpsNoMoveR", "NoCone", "{}"),
+    "dir-file-conflict+r": ("PDF", "UDF", "E2", "K2", "any", "OpsMainR", "NoCone", "{}"),
+    "two-paths+r": ("P2", "NoUnder", "E2", "K2", "any", "OpsMainR", "NoCone", "{}"),
+    # every path tracked, local modifications anywhere: sparse forced checkout and sparse keep reset (C30, C32)
+    "sparse-dirty": ("PS", "NoUnder", "E2", "K2", "dirty-full", "OpsSparseDirty", "ConeS", "SS"),
+    "sparse": ("PS", "NoUnder", "E1", "K1", "clean", "OpsSparse", "ConeS", "SS"),
 }
-CFG = """CONSTANTS Paths <- %s Under <- %s Entries <- %s KindOf <- %s CleanOnly = %s Ops <- %s Cone <- %s SparseSets <- %s
+CFG = """CONSTANTS Paths <- %s Under <- %s Entries <- %s KindOf <- %s PreStates = "%s" Ops <- %s Cone <- %s SparseSets <- %s
 INIT Init
 NEXT Next
 INVARIANTS """ + THEOREMS + """
